@@ -491,6 +491,26 @@ class Metrics:
         for rank in all_matches:
             cls.all_rank_matches[rank] = all_matches.difference({rank})
 
+        # A match with a rank that is already part of the loop order takes
+        # effect immediately (registerRank() only sees the matches known at
+        # the time the rank is registered)
+        if not cls.collecting:
+            return
+
+        for rank in all_matches:
+            if rank not in cls.line_order:
+                continue
+
+            for src_rank in cls.all_rank_matches[rank]:
+                if src_rank in cls.line_order or src_rank in cls.rank_matches:
+                    continue
+
+                cls.rank_matches[src_rank] = rank
+
+                if src_rank in cls.traces.keys():
+                    for type_ in cls.traces[src_rank]:
+                        cls._startTrace(src_rank, type_)
+
     @classmethod
     def registerRank(cls, rank):
         """Register a rank as a part of the loop order
